@@ -28,6 +28,7 @@
                                                            dispatch_other_is_exact
   "accepted exactly when the components satisfy the rule"  validURI_iff_rule           (headline)
   the executable matcher decides regex membership          matcher_correct
+  the executable rule (driver request `rule`) decides it   ruleB_iff_rule
   edge cases of the rule (empty URI, lone dot)             rule_empty_uri, validURI_empty_uri, rule_lone_dot
   "whitespace" is RE2's ASCII \s (VT, NBSP are accepted)   whitespace_is_ascii_class
   prefix pattern: "iff it starts with it"                  prefixMatch_iff
@@ -37,9 +38,13 @@
   … always within [1, 2^53]                                idgen_range, idgen_closed_form
   random ids lie in [1, 2^53] for every draw               globalid_range, globalid_bound_is_maxID
   ids read from messages accepted only within the range    asid_int64_iff, asid_uint64_iff, asid_uint64_wrap_rejected,
-                                                           asid_iff_value, asid_accepts_iff (all 9 Go representations)
-  received id is new ⇔ valid ∧ (first ∨ larger ∨ window)   isnew_iff, isnew_in_words, isnew_reachable,
-                                                           recv_last_invariant, update_spec
+                                                           asid_iff_value, asid_accepts_iff (all 9 Go representations),
+                                                           asInt64_switch_modelled (the 9 cases are the source's)
+  received id is new ⇔ valid ∧ (first ∨ larger ∨ window)   isnew_reachable (full strength: after ANY history),
+                                                           isnew_iff, isnew_in_words (for every last ≤ 2^53),
+                                                           recv_last_invariant, update_spec, wrapDistance_is_next_steps,
+                                                           isnew_arbitrary_last_full_fails (last > 2^53 is
+                                                           unreachable and the formula does not extend to it)
   the constants                                            consts
 
   EDGE CASES of the URI rule (they are what the regexes do; the iff is exact):
@@ -160,6 +165,12 @@ example : MatchPrefix = prefixName ∧ MatchWildcard = wildcardName := by decide
 theorem validURI_iff_rule (strict : Bool) (mtch u : List UInt8) :
     validURI strict mtch u = true ↔ rule strict (policyOf mtch) u := by
   rw [validURI, matchB_iff, dispatch, regexFor_iff_rule]
+
+/-- The rule is decidable: `ruleB` (what the driver's `rule` request runs against the real
+    `ValidURI` in the correspondence family) decides it. -/
+theorem ruleB_iff_rule (strict : Bool) (p : Policy) (s : List UInt8) :
+    ruleB strict p s = true ↔ rule strict p s :=
+  ruleB_iff strict p s
 
 /-- The empty URI is one empty component: rejected for exact use, accepted for prefix and wildcard. -/
 theorem rule_empty_uri (strict : Bool) :
@@ -333,6 +344,15 @@ example : (9007199254740991 : Int64).toInt < globalIDRandBound ∧ globalID 9007
 
 /-! ## Ids read from messages (`AsID`: regenerated range test after the `AsInt64` type switch) -/
 
+/-- The hand-written `Nexus.Ids.asInt64` (one constructor of `GoNum` per case, each converted by
+    Go's `int64(v)`) covers exactly the cases of the type switch of `AsInt64` as it is in the source:
+    this pins the regenerated table; a new, removed or altered case breaks the proof. -/
+theorem asInt64_switch_modelled :
+    asInt64Cases =
+      [("int64", "v"), ("ID", "int64(v)"), ("uint64", "int64(v)"), ("int", "int64(v)"),
+       ("int32", "int64(v)"), ("uint", "int64(v)"), ("uint32", "int64(v)"),
+       ("float64", "int64(v)"), ("float32", "int64(v)")] := by decide
+
 /-- For every int64 value: accepted iff `1 ≤ v ≤ 2^53`, and the id is `v`. -/
 theorem asid_int64_iff (v : Int64) (id : UInt64) :
     asID (.int64 v) = some id ↔ (1 ≤ v.toInt ∧ v.toInt ≤ 2 ^ 53) ∧ (id.toNat : Int) = v.toInt :=
@@ -460,6 +480,34 @@ theorem isnew_in_words (last id : UInt64) (hlast : last.toNat ≤ 2 ^ 53) :
   unfold wrapDistance
   constructor <;> rintro ⟨hv, h⟩ <;> refine ⟨hv, ?_⟩ <;> omega
 
+/-- `wrapDistance` really is the wrap-around distance: issuing `wrapDistance last id` further ids
+    after `last` (with the generator's own wrap `2^53 → 1`) arrives exactly at `id`. -/
+theorem wrapDistance_is_next_steps (last id : UInt64)
+    (hid : 1 ≤ id.toNat) (hlt : id.toNat < last.toNat) (hlast : last.toNat ≤ 2 ^ 53) :
+    nextIter (wrapDistance last.toNat id.toNat) last = id := by
+  have iter : ∀ k (s : UInt64), 1 ≤ s.toNat → s.toNat ≤ 2 ^ 53 →
+      (nextIter k s).toNat = (s.toNat - 1 + k) % 2 ^ 53 + 1 := by
+    intro k
+    induction k with
+    | zero => intro s h1 h2; simp only [nextIter]; omega
+    | succ k ih =>
+      intro s h1 h2
+      have hstep := idgen_next_step s h2
+      have e : (idGenNext s).1.toNat = if s.toNat = 2 ^ 53 then 1 else s.toNat + 1 := by
+        rw [hstep.2, hstep.1]
+      have hr : 1 ≤ (idGenNext s).1.toNat ∧ (idGenNext s).1.toNat ≤ 2 ^ 53 := by
+        rw [e]; split <;> omega
+      simp only [nextIter]
+      rw [ih _ hr.1 hr.2, e]
+      split <;> omega
+  apply UInt64.toNat_inj.mp
+  rw [iter _ last (by omega) hlast]
+  unfold wrapDistance
+  omega
+
+-- non-vacuity: last = 2^53 - 2, id = 3: 5 steps (2^53-1, 2^53, 1, 2, 3)
+example : wrapDistance 9007199254740990 3 = 5 ∧ nextIter 5 9007199254740990 = 3 := by decide
+
 example : (9007199254740900 : UInt64).toNat ≤ 2 ^ 53 ∧ wrapDistance 9007199254740900 7 = 99 ∧
     isNewRecvID 9007199254740900 7 = true := by decide
 
@@ -490,12 +538,26 @@ theorem isnew_reachable (history : List UInt64) (id : UInt64) :
         (id.toNat < last.toNat ∧ wrapDistance last.toNat id.toNat < 500)) :=
   isnew_in_words _ id (recv_last_invariant history 0 (by decide))
 
-/-- The hypothesis `last ≤ 2^53` cannot be dropped from `isnew_iff`: for the (unreachable) stored
-    value `2^64 − 1` the uint64 subtraction `MaxID − (last − id)` wraps and the answer differs from
-    the formula over natural numbers. -/
-theorem isnew_unreachable_last_differs :
-    isNewRecvID 18446744073709551615 1 = false ∧
-    ((1 : UInt64).toNat < (18446744073709551615 : UInt64).toNat ∧
-      MaxID - ((18446744073709551615 : UInt64).toNat - (1 : UInt64).toNat) < deltaID) := by decide
+/-- The formula of `isnew_iff` claimed for ALL 64-bit values of the stored `lastRecvID`, reachable
+    or not.  (Stronger than the property, which speaks about sessions; kept to document exactly
+    how far the arithmetic goes.) -/
+def isnew_arbitrary_last_full : Prop :=
+  ∀ last id : UInt64,
+    isNewRecvID last id = true ↔
+      (1 ≤ id.toNat ∧ id.toNat ≤ MaxID) ∧
+      (last.toNat = 0 ∨ id.toNat > last.toNat ∨
+        (id.toNat < last.toNat ∧ MaxID - (last.toNat - id.toNat) < deltaID))
+
+/-- … is FALSE: for the unreachable stored value `2^64 − 1` the uint64 subtraction
+    `MaxID − (last − id)` wraps around and the code answers "not new" where the formula over the
+    natural numbers says "new".  No session can get there (`recv_last_invariant`), so this is not a
+    defect of the implementation; `isnew_iff` is the part that holds (hypothesis `last ≤ MaxID`) and
+    `isnew_reachable` is the property at full strength. -/
+theorem isnew_arbitrary_last_full_fails : ¬ isnew_arbitrary_last_full := by
+  intro h
+  have h1 := (h 18446744073709551615 1).mpr (by decide)
+  have h2 : isNewRecvID 18446744073709551615 1 = false := by decide
+  rw [h2] at h1
+  cases h1
 
 end Nexus.C19
